@@ -61,6 +61,21 @@ def bombs():
                     w.u(1, 0)
                 w.ue(pid).ue(1).u(8, 0x5a).u(1, 1).u(4, idx).u(16, 0xffff).u(16, 0xffff)
                 out.append(("H3/hevc-slice/t%d-pps%d-rps%d" % (t, pid, idx), "nal-hevc", w.bytes_rbsp(bytes([t << 1, 1]))))
+    # the same header with every slice_pic_order_cnt_lsb width 4..16 (the width is set by the SPS in force)
+    for t in (1, 19):
+        for width in range(4, 17):
+            for nb in (1, 2, 3, 4, 5, 6):
+                for idx in range(0, 1 << nb):
+                    if nb > 3 and idx not in (0, 1, (1 << nb) - 1, (1 << (nb - 1)), (1 << (nb - 1)) + 1, 9, 10, 5, 6, 7):
+                        continue
+                    w = B().u(1, 1)
+                    if t >= 16:
+                        w.u(1, 0)
+                    w.ue(0).ue(1)
+                    if t < 19:
+                        w.u(width, 0x1555 & ((1 << width) - 1))
+                    w.u(1, 1).u(nb, idx).u(16, 0xffff).u(16, 0xffff)
+                    out.append(("H3/hevc-slice-w/t%d-w%d-b%d-rps%d" % (t, width, nb, idx), "nal-hevc", w.bytes_rbsp(bytes([t << 1, 1]))))
     return out
 
 
